@@ -7,6 +7,16 @@ TRUST = ('rustc MIR construction + type checker (nightly 1.97), the mirfacts dri
          '(lint/extern_models.py), dependency crates not analysed; see DESIGN.md 2.1')
 
 CLAIMS = {
+ 'C01': dict(
+    text='Static, all byte strings x both option bits x all histories (by induction over one call with field contracts): inventory of every MIR Assert '
+         'terminator (bounds, +-*<<>> overflow with overflow checks on, division/remainder by zero) and every panicking external call reachable from the 7 '
+         'pub fns of H263State (405 sites in 172 functions); 383 are discharged by an interval / option-state / symbolic-bound abstract interpretation under '
+         'a contracts table that is itself checked at every producer; the 22 relational ones must match the reviewed-safe table, each entry void unless its '
+         'mechanism rules hold (M1 clamp provenance, M2/M3 clamped extents, M4 fast-path guard set, M5 reference dimensions, M7 macroblock-count bound, '
+         'M9 frozen picture fields, M10 reader position discipline, M11 UMV counters); M8 no Result dropped; no recursion; all 30 loops classified '
+         '(finite iterator / input-consuming / consuming+counter). Found and fixed D1, D2, D3, D4, D12. Residue size is reported in the evidence.',
+    technique='abstract interpretation (intervals + option state + symbolic bounds) over MIR with checked contracts; structural mechanism rules; loop classification',
+    ref='4, 6/C01'),
  'C14': dict(
     text='Static, all operation histories: decides the EFFECT DISCIPLINE of the bit reader, not the delivered bit values. A: bits_read is assigned only in '
          'skip_bits (dominated by the success of ensure_bits(n), adding exactly n), rollback and commit; buffer only grows in buffer_bytes and shrinks in commit; '
